@@ -39,7 +39,10 @@ FUNCS = {
         ensures=[
             ('closes_iff_terminating_and_idle', 'closed(self) == (old(closed(self)) or (self._in_term and idle_spec(self)))',
              ['C09', 'C14']),
-            # C09: nothing may be cut off by the close -- also the octets still in the connection buffer
+            # C09: nothing may be cut off by the close: no transfer queued / in progress / unacknowledged and
+            # no octets in the message buffers ...
+            ('closes_only_when_idle', 'implies(closed(self) and not old(closed(self)), self._in_term and idle_spec(self))', ['C09']),
+            # ... and also no octets still in the connection buffer (recorded finding: see known_findings.json)
             ('closes_only_when_drained', 'implies(closed(self) and not old(closed(self)), drained(self))', ['C09']),
             ('unchanged_unless_closing', 'implies(not (self._in_term and idle_spec(self)), close_fields_kept(self))', []),
             ('timers_cleared_on_close', 'implies(self._in_term and idle_spec(self) and not old(closed(self)), '
